@@ -78,6 +78,7 @@ highlight(struct vbi_search *s, cache_page *vtp,
 {
 	vbi_page *pg = &s->pg;
 	ucs2_t *hp;
+	long next;
 	int i, j;
 
 	hp = s->haystack;
@@ -90,13 +91,18 @@ highlight(struct vbi_search *s, cache_page *vtp,
 	s->row[1] = FIRST_ROW - 1;
 	s->col[1] = 0;
 
+	/* A forward search continues behind this match. After an empty
+	   match ("^", "$") that is one character further, or the same
+	   empty match would be found again for ever. */
+	next = (me > ms) ? me : me + 1;
+
 	for (i = FIRST_ROW; i < LAST_ROW; i++) {
 		vbi_char *acp = &pg->text[i * pg->columns];
 
 		for (j = 0; j < 40; acp++, j++) {
 			int offset = hp - first;
  
-			if (offset >= me) {
+			if (offset >= next) {
 				s->row[0] = i;
 				s->col[0] = j;
 				return;
@@ -114,7 +120,7 @@ highlight(struct vbi_search *s, cache_page *vtp,
 
 			switch (acp->size) {
 			case VBI_DOUBLE_SIZE:
-				if (offset >= ms) {
+				if (offset >= ms && offset < me) {
 					acp[pg->columns].foreground = 32 + VBI_BLACK;
 					acp[pg->columns].background = 32 + VBI_YELLOW;
 					acp[pg->columns + 1].foreground = 32 + VBI_BLACK;
@@ -124,7 +130,7 @@ highlight(struct vbi_search *s, cache_page *vtp,
 				/* fall through */
 
 			case VBI_DOUBLE_WIDTH:
-				if (offset >= ms) {
+				if (offset >= ms && offset < me) {
 					acp[0].foreground = 32 + VBI_BLACK;
 					acp[0].background = 32 + VBI_YELLOW;
 					acp[1].foreground = 32 + VBI_BLACK;
@@ -138,7 +144,7 @@ highlight(struct vbi_search *s, cache_page *vtp,
 				break;
 
 			case VBI_DOUBLE_HEIGHT:
-				if (offset >= ms) {
+				if (offset >= ms && offset < me) {
 					acp[pg->columns].foreground = 32 + VBI_BLACK;
 					acp[pg->columns].background = 32 + VBI_YELLOW;
 				}
@@ -146,7 +152,7 @@ highlight(struct vbi_search *s, cache_page *vtp,
 				/* fall through */
 
 			case VBI_NORMAL_SIZE:
-				if (offset >= ms) {
+				if (offset >= ms && offset < me) {
 					acp[0].foreground = 32 + VBI_BLACK;
 					acp[0].background = 32 + VBI_YELLOW;
 				}
@@ -159,6 +165,15 @@ highlight(struct vbi_search *s, cache_page *vtp,
 				/* hp++; */
 				break;
 			}
+		}
+
+		if ((hp - first) == ms) {
+			/* The match begins at this row's separator ("$").
+			   Column 40 tells search_page_rev() to continue in
+			   front of the separator, or it finds this match
+			   again for ever. */
+			s->row[1] = i;
+			s->col[1] = 40;
 		}
 
 		hp++;
@@ -333,6 +348,10 @@ search_page_rev(cache_page *vtp, vbi_bool wrapped, void *p)
 			flags = URE_NOTEOL;
 		}
 
+		/* See highlight(). */
+		if (i == row && s->col[1] >= 40)
+			goto break2;
+
 		*hp++ = SEPARATOR;
 		flags = 0;
 	}
@@ -359,6 +378,13 @@ fprintf(stderr, "exec: %x/%x; %d, %d; '%c%c%c...'\n",
 		    s->haystack + pos, hp - s->haystack - pos, &ms1, &me1))
 			break;
 
+		/* When we continue in front of the previous match on this
+		   page an empty match at the very end of the text is that
+		   match again, or adjacent to it. */
+		if (row <= LAST_ROW && me1 == ms1
+		    && s->haystack + pos + ms1 >= hp)
+			break;
+
 		ms = pos + ms1;
 		me = pos + me1;
 
@@ -371,7 +397,6 @@ fprintf(stderr, "exec: %x/%x; %d, %d; '%c%c%c...'\n",
 		return 0; /* try next page */
 
 	highlight(s, vtp, s->haystack, ms, me);
-
 	return 1; /* success, abort */
 }
 
